@@ -80,7 +80,7 @@ class C02(Spec):
         cases = list(kvgen.product_cases(pre, self.alphabet(("a",)), 4 if tier == "quick" else 5))
         cases += list(kvgen.product_cases(pre, self.alphabet_cluster_form(("a",)), 3 if tier == "quick" else 4))
         rng = core.XorShift(seed)
-        cases += list(kvgen.random_cases(pre, self.alphabet(("a", "b")) + [["C 1 set-safe a 2147483646 big"], ["C 1 snapshot true", "SNAP"]], rng,
+        cases += list(kvgen.random_cases(pre, self.alphabet(("a", "b")) + [["C 1 set-safe a 2147483646 big"], ["C 1 set-safe a -3 low"], ["C 2 set-safe b -7 low"], ["C 1 snapshot true", "SNAP"]], rng,
                                          1500 if tier == "quick" else 30000, 4, 14))
         return cases
 
